@@ -9,6 +9,10 @@ impl Limb {
     /// Panics if `shift` overflows `Limb::BITS`.
     #[inline(always)]
     pub const fn shl(self, shift: u32) -> Self {
+        assert!(
+            shift < Self::BITS,
+            "`shift` within the bit size of the integer"
+        );
         Limb(self.0 << shift)
     }
 
